@@ -236,7 +236,17 @@ class Oracle(simcheck.BaseOracle):
                 if m77 is None or not m77.closed or got != [("rec", "1.77", "1.77"), ("x", "1.77", None)] or logged.count("CloseMarketEvent") != 1:
                     self.add("recorder-close", "recorder mode: close of 1.77: closed=%s callbacks=%s close events logged=%d" % (
                         getattr(m77, "closed", None), got, logged.count("CloseMarketEvent")))
-            if sorted(raw_data) != [("rec", "1.77"), ("rec", "1.77")]:
+            # data arrives again for the closed market - a price-only update, no market definition: it is re-opened, cleared flags reset
+            m77 = fw.markets.markets.get("1.77")
+            if m77 is not None:
+                m77.orders_cleared, m77.market_cleared = ["u"], ["u"]
+            fw._process_raw_data(events.RawDataEvent((55, "c3", t0 + 13000, [{"id": "1.77", "rc": [{"id": 1, "ltp": 2.0}]}])))
+            m77 = fw.markets.markets.get("1.77")
+            if m77 is None or m77.closed:
+                self.add("not-reopened", "recorder mode: market still closed after a price update arrived for it again")
+            elif m77.orders_cleared or m77.market_cleared:
+                self.add("cleared-flags-not-reset", "recorder mode: market re-opened with cleared flags %s %s" % (m77.orders_cleared, m77.market_cleared))
+            if sorted(raw_data) != [("rec", "1.77"), ("rec", "1.77"), ("rec", "1.77")]:
                 self.add("recorder-raw-data-dispatch", "recorder mode: raw data callbacks %s" % sorted(raw_data))
         finally:
             datetime.datetime = real
